@@ -47,7 +47,7 @@ func TestDirectedShorterReorg(t *testing.T) {
 			t.Fatal(err)
 		}
 		defer func() { n.Chain.Stop() }()
-		m := &machine{tr: tr, n: n, delivered: map[*gen.TNode]bool{tr.Root: true}, labels: map[string]bool{}, tallest: tallest}
+		m := &machine{tr: tr, n: n, delivered: map[*gen.TNode]bool{tr.Root: true}, hdelivered: map[*gen.TNode]bool{}, labels: map[string]bool{}, tallest: tallest}
 		m.allTxs, _ = collectTxs(tr)
 		shorter := false
 		for bi, br := range branchBatches(tr) {
